@@ -5,6 +5,10 @@ set -e
 HERE=$(cd "$(dirname "$0")" && pwd)
 cd "$HERE"
 mkdir -p work evidence replays
+# scratch of the JVM / Python started here goes to a directory that is removed again (nothing is left under /tmp)
+SCRATCH=$(mktemp -d "$HERE/work/setup_XXXXXX")
+trap 'rm -rf "$SCRATCH"' EXIT
+export TMPDIR="$SCRATCH" JAVA_TOOL_OPTIONS="-Djava.io.tmpdir=$SCRATCH"
 for f in spec/*.tla; do
   out=$(cd spec && tla-sany "$(basename "$f")" 2>&1) || { echo "$out" | tail -20; echo "SANY failed: $f"; exit 1; }
   case "$out" in *"Semantic errors"*|*"Parse Error"*|*"Fatal errors"*) echo "$out" | tail -20; echo "SANY failed: $f"; exit 1;; esac
